@@ -833,7 +833,13 @@ def multiprocess_smoke(ctx, reps):
 # entry points
 # ---------------------------------------------------------------------------
 def run(ctx):
-    cfgs = enum_configs(ctx.tier)
+    # C29_PART=enum|sampled restricts a run to one part (debugging aid: the
+    # enumerated part does not depend on the seed)
+    part = os.environ.get("C29_PART", "all")
+    if part not in ("all", "enum", "sampled"):
+        raise HarnessError(f"C29_PART={part!r}")
+    ctx.extra["part"] = part
+    cfgs = enum_configs(ctx.tier) if part != "sampled" else []
     items = []
     for ci, (case, plen) in enumerate(cfgs):
         nruns = len(case["runs"])
@@ -851,6 +857,9 @@ def run(ctx):
     if ctx.shard == 0:
         ctx.extra["enumerated_configurations"] = len(cfgs)
     ctx.extra["exhaustive"] = False     # 3-run space is sampled in quick
+
+    if part == "enum":
+        return
 
     def prop(drawn):
         case, schedule = drawn
